@@ -332,6 +332,11 @@ func (c *c17Check) invariants(s *vrt.Sched, storage string, ch *channel, where s
 		if b._nrItems > b.size || int(b._nrItems) > len(b.items) {
 			s.Fail("C17.window:buffer-overflow:"+c.tag, fmt.Sprintf("%s: track %s buffer holds %d items, size %d", where, name, b._nrItems, b.size))
 		}
+		// once the channel has started, no track buffer may hold more than the window implied by
+		// timeShiftBufferDepth (maxNrBufSegs-1 listed numbers)
+		if g._started && ch.maxNrBufSegs > 1 && b._nrItems > ch.maxNrBufSegs-1 {
+			s.Fail("C17.window:buffer-beyond-window:"+c.mode, fmt.Sprintf("%s: track %s buffer holds %d items, the window is %d", where, name, b._nrItems, ch.maxNrBufSegs-1))
+		}
 	}
 	// stored files per track within the window
 	tracks, _ := os.ReadDir(filepath.Join(storage, "ch1"))
